@@ -91,6 +91,48 @@ TyBuiltin(name, xt, bodyT) ==
          [] name = "filter" -> IF IsBoolT(bodyT) THEN (IF xt = "any" THEN "[]any" ELSE xt) ELSE REJECT
          [] name = "map"    -> "[]" \o bodyT
 
+(* The static type of a tree (ctx: static type of the innermost enclosing     *)
+(* builtin's collection, "" outside closures).  Gen only builds trees whose   *)
+(* every node is accepted, so REJECT does not occur on generated trees.       *)
+RECURSIVE TypeOf(_, _)
+TypeOf(t, ctx) ==
+  CASE t.k = "nil" -> "nil" [] t.k = "bool" -> "bool" [] t.k = "int" -> "int" [] t.k = "float" -> "float64"
+    [] t.k = "str" -> "string" [] t.k = "id" -> MemberType[t.name] [] t.k = "ptr" -> ElemT(ctx)
+    [] t.k = "un"   -> TyUn(t.op, TypeOf(t.x, ctx))
+    [] t.k = "bin"  -> TyBin(t.op, TypeOf(t.l, ctx), TypeOf(t.r, ctx), {})
+    [] t.k = "prop" -> TyProp(TypeOf(t.x, ctx), t.name)
+    [] t.k = "idx"  -> TyIdx(TypeOf(t.x, ctx), TypeOf(t.i, ctx))
+    [] t.k = "slice" -> TypeOf(t.x, ctx)
+    [] t.k = "meth" -> MethSig[t.name].r
+    [] t.k = "call" -> FnSig[t.name].r
+    [] t.k = "len"  -> "int"
+    [] t.k = "bi"   -> TyBuiltin(t.name, TypeOf(t.x, ctx), TypeOf(t.body, TypeOf(t.x, ctx)))
+    [] t.k = "cond" -> TyCond(TypeOf(t.c, ctx), TypeOf(t.a, ctx), TypeOf(t.b, ctx))
+    [] t.k = "arr"  -> "[]any"
+    [] t.k = "map"  -> "map[string]any"
+
+(* C17: operator overloading.  With `+` mapped to Add(int, int) int every     *)
+(* occurrence of `+` whose operands are both statically int is the call       *)
+(* Add(l, r), wherever it sits; every other occurrence keeps its meaning.     *)
+RECURSIVE Overload(_, _)
+OverloadList(ts, ctx) == [i \in 1..Len(ts) |-> Overload(ts[i], ctx)]
+Overload(t, ctx) ==
+  CASE t.k \in {"nil", "bool", "int", "float", "str", "id", "ptr", "none"} -> t
+    [] t.k = "un"   -> NUn(t.op, Overload(t.x, ctx))
+    [] t.k = "bin"  -> IF t.op = "+" /\ TypeOf(t.l, ctx) = "int" /\ TypeOf(t.r, ctx) = "int"
+                       THEN NCall("Add", <<Overload(t.l, ctx), Overload(t.r, ctx)>>)
+                       ELSE NBin(t.op, Overload(t.l, ctx), Overload(t.r, ctx))
+    [] t.k = "prop" -> NProp(Overload(t.x, ctx), t.name, t.ns)
+    [] t.k = "idx"  -> NIdx(Overload(t.x, ctx), Overload(t.i, ctx))
+    [] t.k = "slice" -> NSlice(Overload(t.x, ctx), Overload(t.from, ctx), Overload(t.to, ctx))
+    [] t.k = "meth" -> NMeth(Overload(t.x, ctx), t.name, OverloadList(t.args, ctx), t.ns)
+    [] t.k = "call" -> NCall(t.name, OverloadList(t.args, ctx))
+    [] t.k = "len"  -> NLen(Overload(t.x, ctx))
+    [] t.k = "bi"   -> NBi(t.name, Overload(t.x, ctx), Overload(t.body, TypeOf(t.x, ctx)))
+    [] t.k = "cond" -> NCond(Overload(t.c, ctx), Overload(t.a, ctx), Overload(t.b, ctx))
+    [] t.k = "arr"  -> NArr(OverloadList(t.xs, ctx))
+    [] t.k = "map"  -> NMap(t.ks, OverloadList(t.vs, ctx))
+
 (* the operand types are all specific: the expression is statically typed *)
 Typed(t) == t # "any"
 =============================================================================
